@@ -268,8 +268,9 @@ def gen(rng, n, tier):
             k = rng.choice([0, 1, 2, 3, 4])
             ax = gen_axis(rng, allow_adaptive=False)
             ms = []
+            mcls = rng.choice(["Histogram1D", "Histogram1D", "RadialHistogram", "AzimuthalHistogram"])      # members of one (sub)class
             for j in range(k):
-                s = gen_spec(rng, ndim=1, cls="Histogram1D"); s["axes"] = [ax]
+                s = gen_spec(rng, ndim=1, cls=mcls); s["axes"] = [ax]
                 if ax[0] == "fixed" and ax[1] > 0 and rng.random() < 0.5:      # members over the same bins may differ in adaptivity
                     s["axes"] = [ax[:5] + ["T"]]
                 nb = axis_len(ax); s["freq"] = [rng.randint(0, 9) for _ in range(nb)]; s["err2"] = list(s["freq"])
